@@ -56,6 +56,13 @@ def parseOp (s : String) : Option Op :=
   | ["pong", h] => do pure (.pong (← Hex.decode h))
   | ["close", c, r] => do pure (.close (← optNat c) (← optHex r))
   | ["hs"] => pure .hsDone
+  -- server, `onConnect` returns a pending Deferred: the request is read, nothing else happens (the opening-handshake
+  -- timer stays armed: it is cancelled in `succeedHandshake`); `res` = the Deferred fires = `succeedHandshake`, which
+  -- (since the repair recorded under C05 `onOpen-after-onClose:deferred-onConnect`) does nothing unless still CONNECTING
+  | ["hsd"] => pure (.advance 0)
+  -- client: the state is OPEN (timers armed) before `onConnect` is asked; only `onOpen` waits for the result
+  | ["hsdc"] => pure .hsDone
+  | ["res"] => pure .hsDone
   | ["hsx", h, _] => do pure (.hsThenFeed (← Hex.decode h))
   | _ => none
 
